@@ -188,8 +188,17 @@ pub fn bare_name_without_dots() -> impl Parser<StringView, Output = BareName, Er
 ///
 /// Usage: label declaration (but also used internally in the module).
 pub fn identifier() -> impl Parser<StringView, Output = Token, Error = ParserError> {
-    any_token_of!(TokenType::Identifier)
+    any_token_of!(TokenType::Identifier).and_then(|token| {
+        if token.as_str().len() > MAX_LENGTH {
+            Err(ParserError::IdentifierTooLong)
+        } else {
+            Ok(token)
+        }
+    })
 }
+
+/// The maximum length of a name (variable, label, SUB, FUNCTION, TYPE, element).
+const MAX_LENGTH: usize = 40;
 
 /// Parses a type qualifier character.
 pub fn type_qualifier() -> impl Parser<StringView, Output = Token, Error = ParserError> {
